@@ -1711,6 +1711,120 @@ def restart_faults(ctx):
         sa_event.remove(sqlalchemy.engine.Engine, 'connect', short_timeout)
 
 
+# ---------------------------------------------------------------------------------- several server lifetimes on one file
+def lifetime_child(path, seed, index, n_ops, wfd):
+    """One server lifetime in a process of its own: start on the file, report what is found, serve acknowledged operations,
+    report the state, then die WITHOUT any shutdown (os._exit: connections, sessions and caches simply vanish)."""
+    import random
+    out = {'lifetime': index, 'ops': []}
+    try:
+        rng = random.Random(seed * 1000 + index)
+        eng = kdrv.Engine(path=path)
+        listed, state = read_everything(eng)
+        out['found_at_start'] = {'listed': listed, 'state': state}
+        live = list(listed or [])
+        for k in range(n_ops):
+            c = rng.random()
+            if c < 0.5 or not live:
+                nm = 'L%d-k%d' % (index, k)
+                extra = [kdrv.attr(AT.OBJECT_GROUP, 'grp%d' % (k % 2), 0)] if rng.random() < 0.5 else []
+                r = eng.request([kdrv.create(names=[nm], extra=extra)])
+                label = 'Create %s' % nm
+            elif c < 0.7:
+                u = rng.choice(live)
+                r = eng.request([kdrv.activate(str(u))])
+                label = 'Activate %s' % u
+            elif c < 0.85:
+                u = rng.choice(live)
+                r = eng.request([kdrv.modify_attribute_v1(str(u), kdrv.attr(AT.NAME, kdrv.name_value('renamed-L%d-%d' % (index, k)), 0))])
+                label = 'ModifyAttribute %s Name' % u
+            else:
+                u = rng.choice(live)
+                r = eng.request([kdrv.destroy(str(u))])
+                label = 'Destroy %s' % u
+            it = r['items'][0] if r['items'] else None
+            out['ops'].append((label, it['status'] if it else 'request-error', it['reason'] if it else None, kdrv.first_uid(it) if it else None))
+            listed, _ = read_everything(eng, versions=())
+            live = list(listed or [])
+        listed, state = read_everything(eng)
+        out['state_at_death'] = {'listed': listed, 'state': state}
+    except Exception as e:  # noqa
+        out['error'] = '%s: %s' % (type(e).__name__, str(e)[:200])
+    finally:
+        try:
+            os.write(wfd, json.dumps(out, default=str).encode())
+        finally:
+            os._exit(0)
+
+
+def lifetimes(ctx, name, seed, n_lifetimes, n_ops):
+    """>= 3 lifetimes of the server on ONE database file, each in a forked process that dies abruptly after its acknowledged
+    operations: what lifetime i+1 finds at start-up must be what lifetime i reported (through the live engine) before dying."""
+    d = ctx.work / name
+    d.mkdir(parents=True, exist_ok=True)
+    path = str(d / 'store.db')
+    history = []
+    prev = None
+    for i in range(1, n_lifetimes + 1):
+        rfd, wfd = os.pipe()
+        pid = os.fork()
+        if pid == 0:
+            os.close(rfd)
+            lifetime_child(path, seed, i, n_ops, wfd)
+        os.close(wfd)
+        data = b''
+        while True:
+            chunk = os.read(rfd, 1 << 16)
+            if not chunk:
+                break
+            data += chunk
+        os.close(rfd)
+        os.waitpid(pid, 0)
+        try:
+            rep = json.loads(data.decode())
+        except Exception:
+            rep = {'lifetime': i, 'error': 'no report from the server process'}
+        history.append({'lifetime': i, 'operations': rep.get('ops'), 'error': rep.get('error')})
+        ctx.count('lifetimes.served')
+        wit = {'database': 'one SQLite file; every lifetime = fork, KmipEngine(database_path=file), requests, os._exit', 'seed': seed,
+               'history': history}
+        if rep.get('error') and 'found_at_start' not in rep:
+            ctx.violation({'class': 'unreadable-or-partial', 'op': 'restart', 'cut': 'lifetime-%d' % i}, wit,
+                          'lifetime %d: the server cannot start on / read its own database: %s' % (i, rep['error']))
+            return
+        if rep.get('error'):
+            ctx.disagreement('lifetimes', {'history': history, 'problem': rep['error']})
+            return
+        if prev is not None and rep['found_at_start'] != prev:
+            a, b = prev, rep['found_at_start']
+            diffs = []
+            if a['listed'] != b['listed']:
+                diffs.append({'objects_listed_before_death': a['listed'], 'objects_listed_after_restart': b['listed']})
+            for u in sorted(set(a['state']) | set(b['state'])):
+                if a['state'].get(u) != b['state'].get(u):
+                    diffs.append({'object': u, 'before_death': a['state'].get(u), 'after_restart': b['state'].get(u)})
+            ctx.violation({'class': 'acknowledged-not-durable', 'op': 'restart', 'cut': 'lifetime-%d' % i},
+                          dict(wit, differences=diffs[:6]),
+                          'what lifetime %d of the server finds on the file is not what lifetime %d had acknowledged and could read before it died: %s' % (
+                              i, i - 1, json.dumps(diffs[0], default=str)[:300] if diffs else ''))
+            return
+        ctx.case_seen((name, i, json.dumps(rep.get('state_at_death'), sort_keys=True, default=str)), nontrivial=True)
+        prev = rep['state_at_death']
+
+
+def phase(ctx, label, fn, *a, **kw):
+    """A part of the check that raises is a broken tie (never a pass) - but the other parts still run, so that a concrete
+    failing input can be found."""
+    import traceback
+    try:
+        return fn(*a, **kw)
+    except Exception as e:  # noqa
+        traceback.print_exc()
+        ctx.broken.append({'kind': 'correspondence', 'name': 'harness/c09.py:' + label,
+                           'detail': 'harness part %s raised: %s: %s' % (label, type(e).__name__, str(e)[:300]), 'candidates': []})
+        return None
+
+
 # ---------------------------------------------------------------------------------- check
 def run(ctx):
     quick = ctx.tier == 'quick'
@@ -1740,24 +1854,26 @@ def run(ctx):
     for ot in kdrv.STORED_TYPES:
         cases.append('CClass %s [%s]' % (cp.z(ot.value), '; '.join(cp.z(TABLES[t]) for t in class_tables_of(ot))))
         meta.append({'case': 'class-tables', 'object_type': ot.name, 'tables': class_tables_of(ot)})
-    restart_fidelity(ctx, 'restart0', ctx.subrng('restart/0'), scripted=True)
+    phase(ctx, 'restart_fidelity', restart_fidelity, ctx, 'restart0', ctx.subrng('restart/0'), scripted=True)
     for k in range(1, 4 if quick else 16):
-        restart_fidelity(ctx, 'restart%d' % k, ctx.subrng('restart/%d' % k), scripted=False)
-    restart_faults(ctx)
+        phase(ctx, 'restart_fidelity', restart_fidelity, ctx, 'restart%d' % k, ctx.subrng('restart/%d' % k), scripted=False)
+    for k in range(2 if quick else 8):
+        phase(ctx, 'lifetimes', lifetimes, ctx, 'lifetimes%d' % k, ctx.seed + k, 4, 4)
+    phase(ctx, 'restart_faults', restart_faults, ctx)
     n_hist, n_steps = (8, 30) if quick else (24, 50)
-    c, m = run_history(ctx, 'hscript', 0, ctx.subrng('history/script'), scripted=True)
+    c, m = phase(ctx, 'run_history', run_history, ctx, 'hscript', 0, ctx.subrng('history/script'), scripted=True) or ([], [])
     cases += c
     meta += m
     for h in range(n_hist):
-        c, m = run_history(ctx, 'h%02d' % h, n_steps, ctx.subrng('history/%d' % h))
+        c, m = phase(ctx, 'run_history', run_history, ctx, 'h%02d' % h, n_steps, ctx.subrng('history/%d' % h)) or ([], [])
         cases += c
         meta += m
     ctx.log('histories: %d operations recorded, %d cuts reopened' % (len([m for m in meta if m['case'] == 'shape']), ctx.cov['evaluations']))
-    fsize_injection(ctx)               # first: a hit here is a concrete death point with an unopenable store
-    commit_failure_runs(ctx, cases, meta)
+    phase(ctx, 'fsize_injection', fsize_injection, ctx)               # first: a hit here is a concrete death point with an unopenable store
+    phase(ctx, 'commit_failure_runs', commit_failure_runs, ctx, cases, meta)
     n_kills, kill_steps = (60, 14) if quick else (400, 20)
-    wl_seed, found = kill_runs(ctx, n_kills, kill_steps)
-    kc, km, upto = kill_cases(ctx, wl_seed, kill_steps, found)
+    kr = phase(ctx, 'kill_runs', kill_runs, ctx, n_kills, kill_steps)
+    kc, km, upto = (phase(ctx, 'kill_cases', kill_cases, ctx, kr[0], kill_steps, kr[1]) if kr else None) or ([], [], 0)
     cases += kc
     meta += km
     ctx.count('kill.compared-with-model', len(kc))
